@@ -57,7 +57,7 @@ row("`BigUint::bits`", U, "C07 C04", "u.bits hist.pair", "Bits.ubits", "C07_bits
 row("`BigUint::pow(u32)`", U, "C12 C04", "u.pow_u32", "Pow.upow_prim_ref", "C12_upow_ref", P, claims=inh("BigUint", "pow"))
 row("`BigUint::modpow`", U, "C05", "u.modpow h.monty_modpow h.plain_modpow", "Modpow.umodpow", "C05_umodpow", P, claims=inh("BigUint", "modpow"))
 row("`BigUint::modinv`", U, "C05", "u.modinv", "Modpow.umodinv", "C05_umodinv", P, claims=inh("BigUint", "modinv"))
-row("`BigUint::sqrt / cbrt / nth_root` (inherent)", U, "C11", "u.sqrt_inh u.cbrt_inh u.nth_root_inh", "Roots.usqrt Roots.ucbrt Roots.unth_root", "C11_roots", P, "one-line forwards to the `Roots` methods (same model function); not called by any op before this audit (all ops used `Roots::sqrt(&x)`)", claims=inh("BigUint", "sqrt") + inh("BigUint", "cbrt") + inh("BigUint", "nth_root"))
+row("`BigUint::sqrt / cbrt / nth_root` (inherent)", U, "C11", "u.sqrt_inh u.cbrt_inh u.nth_root_inh", "Roots.usqrt Roots.ucbrt Roots.unth_root", "C11_roots", P, "one-line forwards to the `Roots` methods (same model function); before this audit only reached indirectly (`Roots for BigInt` calls `self.data.cbrt()`, `nth_root(3)` calls `self.cbrt()`), every op used `Roots::sqrt(&x)`", claims=inh("BigUint", "sqrt") + inh("BigUint", "cbrt") + inh("BigUint", "nth_root"))
 row("`BigUint::trailing_zeros / trailing_ones / count_ones`", U, "C07", "u.trailing_zeros u.trailing_ones u.count_ones", "Bits.utrailing_zeros Bits.utrailing_ones Bits.ucount_ones", "C07_trailing_zeros C07_trailing_ones C07_count_ones", P, claims=inh("BigUint", "trailing_zeros") + inh("BigUint", "trailing_ones") + inh("BigUint", "count_ones"))
 row("`BigUint::bit / set_bit`", U, "C07 C04", "u.bit u.set_bit hist.u", "Bits.ubit Bits.uset_bit", "C07_ubit C07_uset_bit", P, "set_bit beyond the length (growth) and clearing the top bit (shrink) are generated by c07.py", claims=inh("BigUint", "bit") + inh("BigUint", "set_bit"))
 
@@ -84,7 +84,7 @@ row("`BigInt::checked_mul` (inherent)", I, "C02 C14", "i.checked_mul", "Mul.iche
 row("`BigInt::checked_div` (inherent)", I, "C03 C14", "i.checked_div_inherent", "Div.ichecked_div_inherent", "C03_checked_idiv C14_checked_idiv_never_panics", P, claims=inh("BigInt", "checked_div"))
 row("`BigInt::pow(u32)`", I, "C12 C04", "i.pow_u32", "Pow.ipow_prim_ref", "C12_ipow", P, claims=inh("BigInt", "pow"))
 row("`BigInt::modpow / modinv`", I + ", src/bigint/power.rs", "C05", "i.modpow i.modinv", "Modpow.imodpow Modpow.imodinv", "C05_imodpow C05_imodinv", P, claims=inh("BigInt", "modpow") + inh("BigInt", "modinv"))
-row("`BigInt::sqrt / cbrt / nth_root` (inherent)", I, "C11", "i.sqrt_inh i.cbrt_inh i.nth_root_inh", "Roots.isqrt Roots.icbrt Roots.inth_root", "C11_bigint", P, "GAP FILLED (see BigUint)", claims=inh("BigInt", "sqrt") + inh("BigInt", "cbrt") + inh("BigInt", "nth_root"))
+row("`BigInt::sqrt / cbrt / nth_root` (inherent)", I, "C11", "i.sqrt_inh i.cbrt_inh i.nth_root_inh", "Roots.isqrt Roots.icbrt Roots.inth_root", "C11_bigint", P, "GAP FILLED: BigInt's inherent forwards were never called", claims=inh("BigInt", "sqrt") + inh("BigInt", "cbrt") + inh("BigInt", "nth_root"))
 row("`BigInt::bit / set_bit`", I + ", src/bigint/bits.rs", "C07 C04", "i.bit i.set_bit hist.i", "Bits.ibit Bits.iset_bit Bits.set_negative_bit", "C07_bit C07_set_bit C07_set_bit_nonneg", P, claims=inh("BigInt", "bit") + inh("BigInt", "set_bit"))
 
 # ---- Sign -------------------------------------------------------------------------------------------
@@ -227,7 +227,74 @@ helper("src/biguint/convert.rs", "high_bits_to_u64", "Prim.high_bits_to_u64", "l
 helper("src/biguint/serde.rs", "cautious", "Serde.cautious")
 helper("src/bigrand.rs", "gen_bits", "Rand.gen_bits")
 
-NOTES = """(notes placeholder)"""
+NOTES = r"""## How this table was derived
+
+1. `tools/api_inventory.py` tokenises every file under /repo/src, expands every item-level macro invocation with the
+   `macro_rules!` engine of the C10 extractor (`tools/extractors/forms.py`), and lists every `impl` block with its
+   functions, every inherent `pub fn` / `pub const`, and every free function (`impls`, `fns`, `summary`, `json`).
+2. `tools/api_coverage.py` holds the auditor's rows (item -> property / ops / model function / theorems) and refuses to
+   write this file unless every op exists in `harness/src/ops_*.rs` and `ocaml/ops_*.ml` AND is produced by a generator,
+   every model function exists in `coq/model` / `coq/spec`, every theorem exists in `coq/props`, every inventory item is
+   claimed by a row, and every free function appears in the helper table.  Derived trait impls (`#[derive]`) are not
+   `impl` items in the source; they were listed by hand from `grep -n derive /repo/src`.
+3. Operator impls are not repeated here: `Extracted.forms` (regenerated per run, 1 286 rows) is the table; `forms.list`
+   compares its names with the names of the impls the harness calls through their qualified paths.
+
+## Gaps found and filled by this audit (all additions are in NEW files except where noted)
+
+New files: `coq/model/{ExtraOrd,ExtraText,ExtraHist}.v`, `coq/spec/SpecExtra.v`,
+`coq/proofs/{ExtraOrdProofs,ExtraTextProofs,ExtraHistProofs}.v`, `harness/src/ops_extra.rs`, `ocaml/ops_extra.ml`,
+`tools/gen/extra_cases.py` (called at the end of `generate` in c01 c04 c06 c08 c10 c11 c19), `tools/api_inventory.py`,
+`tools/api_coverage.py`.  Edited: theorems appended to `coq/props/{C01,C04,C06,C19}.v`; `harness/Cargo.toml` (+ lock):
+optional features `quickcheck`, `arbitrary` (both build offline; in `default`, so C14's release re-run sees the new
+cases; the no_std and guard variants are unaffected); `harness/src/ops_hist.rs`: helpers made `pub`, the pair
+observation moved into `observe_u/observe_i` (no behaviour change); `tools/gen/c04.py`: `extra_checks`/`nontrivial`
+tolerate the new op names.
+
+| property | ops added | theorems added | what was missing |
+|---|---|---|---|
+| C01 | `i.checked_add` `i.checked_sub`; cases for `h.sub2rev` | `C01_ichecked_add` `C01_ichecked_sub` | BigInt's INHERENT checked_add/checked_sub were never called (only the trait impls, via C10); `h.sub2rev` existed in harness and driver but no generator produced it |
+| C04 | `ord.u` `ord.i` `sort.u` `sort.i` `hash.u` `hash.i` `histx.u` `histx.i` `histx.pair` `arb.u` `arb.i` `arb.u_rest` `arb.i_rest` `arb.hint` `qc.u` `qc.i` `qc.shrink_u` `qc.shrink_i` | `C04_operators_u` `C04_operators_i` `C04_arbitrary_canon` `C04_xconstruct_spec` `C04_xhistory_trace_spec` `C04_xhistory_canon` `C04_xindistinguishable` | `<` (named in the property text), `partial_cmp`, `!=` never executed; `C04_sort` had no op; the hashed stream was only compared for equality of two `DefaultHasher` outputs; `from_str_radix` / `parse_bytes` / `From<primitive>` / `arbitrary` never started a history; BigInt `op= scalar` never occurred in a history; the two generator impls (`arbitrary`, `quickcheck`) were compiled by C16 but never run |
+| C06 | `u.fmt_debug` `i.fmt_debug` `u.parse_err` `i.parse_err` | `C06_fmt_debug_u` `C06_fmt_debug_i` `C06_parse_error_value` `C06_ito_radix_be` | `{:?}` never formatted; the error VALUE of the parsers was only classified by `contains("empty")`; `BigInt::to_radix_be` had an op but no theorem |
+| C08 | `u.try_err` `i.try_err` | — (constant text) | `TryFromBigIntError`: Display / description / derives |
+| C10 | `f.sum0` `f.product0` | — (`C10_folds_agree` already quantifies over every list) | Sum / Product over EMPTY iterators (generator lengths were 1..6) for every item type |
+| C11 | `u.sqrt_inh` `u.cbrt_inh` `u.nth_root_inh` `i.sqrt_inh` `i.cbrt_inh` `i.nth_root_inh` | — (one-line forwards; same model function) | the inherent methods: BigInt's were never called; BigUint's only indirectly (`Roots for BigInt` calls `self.data.cbrt()`, `nth_root(3)` calls `self.cbrt()`) |
+| C19 | `sg.sign_eq` `sg.sign_cmp` `sg.sign_debug` `sg.sign_hash` `sg.sign_copy` | `C19_sign_derives` | the derives of `Sign` were only used inside `Ord for BigInt` |
+
+Sanity of the new detectors (a scratch copy of the crate with ten independent edits, run through `VERIF_REPO`; /repo untouched):
+`Debug for BigInt` via LowerHex -> 239 `i.fmt_debug` cases; `partial_cmp(0,0) = None` -> `ord.i i:0: i:0:` (and `sort.i` panics);
+inherent `checked_sub` = `self + v` -> 110 `i.checked_sub` cases; inherent `BigUint::cbrt` = sqrt -> `*_inh`, and (showing the
+indirect path) `i.cbrt`, `u.nth_root n:3`; `arbitrary` sign swapped -> `arb.i`, `histx.*`; quickcheck `shrink` building
+`BigInt { sign, data }` without `from_biguint` -> `qc.i`, `qc.shrink_i` (`err i:-:` = Minus with empty magnitude); both error
+messages edited -> `*.parse_err`, `*.try_err`; `Hash for BigInt` hashing the magnitude of zero -> `hash.i i:0:` (`d:1,0` vs `d:1`;
+invisible to `hist.pair`, which only compares two hashes).  Every edit was reported as `VIOLATION … replay=` by the owning check.
+
+## Gaps left, and why
+
+* **quickcheck::Arbitrary** is `exercised only`: quickcheck's `Vec<u64>` generator and shrinker are dependency code; only the
+  invariant (every generated value / shrink candidate is canonical, a shrink candidate differs from the value and keeps its sign) is
+  checked, against the theorem about `biguint_from_vec` / `from_biguint` on arbitrary vectors.
+* **arbitrary::Arbitrary**: the byte decoding of `arbitrary` 1.4.2 (`fill_buffer`, `bool = u8 & 1`, the `arbitrary_iter` loop) is restated
+  in `ExtraHist.v` as dependency behaviour — modelled, validated by the run (exact value AND number of unread bytes), not verified.
+* **Derived `Debug/Hash/Clone/Copy` of `Sign`, `Clone`/`Debug` of `UniformBigUint`, `UniformBigInt`, `RandomBits`**: compiler-generated;
+  `Sign`'s are exercised (`sg.sign_*`), the three sampler structs' are NOT COVERED (no property speaks about them).
+* **`Clone::clone`**: exercised (pair observations, buffer modes) but there is nothing to state beyond identity; capacity is not modelled anywhere
+  (docs/notes/hist.md).
+* **BigInt `op= scalar` in histories** is modelled by the big∘big step on `ienc s` (proof: `C04_xhistory_trace_spec`); that the scalar forms
+  themselves agree with big∘big is C10's theorem at value level — the digit-level scalar leaves of BigInt (`match sign … data += other`) have no
+  digit-level model of their own (FormsLeaves.v is value level).
+* **32-bit digit arms / non-x86 arms** (`u32_to_u128`, `u32_from_u128`, first items of `cfg_digit!`, portable `div_wide`) are not compiled here;
+  `div_half` and `get_half_radix_base` are compiled but unreachable on x86_64 (`FAST_DIV_WIDE` is constant `true`): not restated.
+* **f64 initial guesses of the roots (std)**: not modelled (C11 theorems hold for every legal guess; C16 compares std / no_std).
+* **`to_radix_le/be` with a radix outside 2..=256**: documented precondition without an assertion — nothing claimed.
+* Traits the crate does not implement (`Bounded`, `Average`, `CheckedNeg`, `CheckedRem`, `CheckedShl/Shr`, `ConstOne`, …, `checked_pow`): nothing to cover.
+
+## Findings
+
+None.  On every new case (quick and, where the drift sentinel or the mutation experiment escalated, thorough tier) the real crate agrees with
+the model and with the Z-level specification.  Checks touched and their state on the unchanged /repo: C01 C04 C06 C08 C10 C11 C19 (new cases /
+theorems) and C14 C15 C16 (harness features changed): all `ok`, no VIOLATION line.
+"""
 
 # ---------------------------------------------------------------------------------------------------
 def sh(cmd):
